@@ -880,6 +880,8 @@ class Repo(object):
                     return bytes(int(x) for x in args[0])
                 if isinstance(args[0], (bytes, bytearray)):
                     return bytes(args[0])
+                if isinstance(args[0], int) and not isinstance(args[0], bool) and 0 <= args[0] <= 1 << 16 and len(args) == 1:
+                    return bytes(args[0])
                 return UNKNOWN
             if n == 'bytearray' and len(args) == 1 and isinstance(args[0], (list, tuple, bytes)):
                 return bytes(int(x) for x in args[0])
